@@ -40,6 +40,11 @@ class AItem:
     def pyvc_getattr(self, interp, name):
         if name == "name":
             return SymName(("item", self.kind, self.ident))
+        if not name.startswith("__"):
+            # any other attribute of an element met in the graph (a parameter, a variable dict ...): it is
+            # mutable state outside the graph - logged as a pseudo-region, its value is opaque
+            log_read(f"element-attr:{name}")
+            return AItem(f"attr-of-{self.kind}:{name}", self.idx, self.graph)
         raise Unsupported(f"attribute {name} of a generic graph item")
 
     def pyvc_isinstance(self, interp, cls):
